@@ -27,8 +27,11 @@ def grammar_models(check):
         res = run_tlc(module, cfg, os.path.join(check.work, "md_" + module), workers=2 if check.tier == "quick" else 4,
                       timeout=900 if check.tier == "quick" else 5400, java_opts="-Xss256m", xmx="6g")
         return module, cfg, res, time.time() - t0
-    with ThreadPoolExecutor(max_workers=3 if check.tier == "quick" else 1) as ex:
+    # the spec -> impl replay (1 TLC worker + the driver) runs next to the models
+    with ThreadPoolExecutor(max_workers=4 if check.tier == "quick" else 2) as ex:
+        replay = ex.submit(avro_blocks_replay, check)
         results = list(ex.map(one, MODELS))
+        replay.result()
     for module, cfg, res, dt in results:
         out = res["out"]
         if res["timeout"]:
@@ -93,7 +96,7 @@ PLAN = dict(
     drive=[dict(bin="c17", args=["run"], timeout=3000)],
     tv=[dict(glob="text-*.ndjson", module="Trace_TextFormats", cfg="Trace_TextFormats.cfg",
              corrupt=["cells", "utf8", "rows_out", "outcome", "msgs", "text"], timeout=3000)],
-    extra_steps=[avro_blocks_replay, grammar_models],
+    extra_steps=[grammar_models],
     level_text="The three formats are specified as TLA+ operators on character / byte sequences, written from the standards and independent of "
                "the implementation: CsvGrammar.tla (RFC 4180 field / record splitting with the arrow-csv Format options - delimiter, quote, "
                "escape, terminator, CR / LF / CRLF, quoted line breaks, doubled quotes - and the writer's quoting rule), JsonGrammar.tla (an "
@@ -102,13 +105,15 @@ PLAN = dict(
                "varints on 64-bit longs via limb arithmetic, length-prefixed bytes / strings, fixed, enum, float / double byte order, array and "
                "map blocks incl. negative counts with byte sizes, records, unions, object-container-file header / blocks / sync, single-object "
                "prefix).  TLC model-checks the round-trip theorems exhaustively on small universes: Split(Join(recs)) = recs for every record "
-               "matrix (<= 3 fields of <= 2 characters over {delimiter, quote, CR, LF, escape, terminator, a}; 10 writer formats; all texts <= 6 "
+               "matrix (<= 3 fields of <= 2 characters over {delimiter, quote, CR, LF, escape, terminator, a}; 9 writer formats; all texts <= 6 "
                "characters: totality, plain-text characterisation, fixed point); Parse(Write(v)) = v for every JSON value of depth <= 2 over a "
                "leaf set with all kinds, every string <= 3 over 18 boundary characters, every token string <= 5 (totality, fixed point), the "
                "number production against a declarative definition, \\uXXXX / surrogate pairs; Decode(Encode(v)) = v for every value of 26 "
                "schemas over boundary longs (0, +-1, 63/64, -64/-65, 8191/8192, +-2^31, 2^63-1, -2^63) and byte strings, the Avro "
                "specification's varint table, all blockings of arrays, DecLong on every byte string <= 5 over boundary bytes, "
-               "OcfParse(OcfWrite(..)).  The real code is bound to these operators by trace validation (Trace_TextFormats.tla), TLC evaluating "
+               "OcfParse(OcfWrite(..)).  spec -> impl: TLC writes every blocking of arrays / maps the Avro specification allows (several "
+               "blocks, negative counts with byte sizes - forms the arrow-avro writer never emits) with the value it denotes "
+               "(Gen_AvroBlocks.tla) and the real Decoder must return that value.  The real code is bound to these operators by trace validation (Trace_TextFormats.tla), TLC evaluating "
                "the grammar on the logged text / bytes of every event: (a) round trips - CSV writer -> reader over the supported type set "
                "(booleans, all integer widths with extremes, floats incl. subnormal / max / shortest-round-trip cases, decimals, dates, times, "
                "timestamps with and without zone, strings with delimiters, quotes, line breaks, control and non-BMP characters, dictionaries, "
